@@ -169,7 +169,7 @@ func modelCases(c *ctx) {
 	r := c.r
 	n := r.Pick(150, 2000)
 	for k := 0; k < n; k++ {
-		g := &gen{r: common.NewRand(r.Rnd.Uint64())}
+		g := &gen{r: common.NewRand(c.rnd.Uint64())}
 		r.Mark("case model %d", k)
 		{
 			v := disco.InfoQuery{Node: g.opt()}
@@ -184,7 +184,7 @@ func modelCases(c *ctx) {
 			recCase(c, "info.Feature", v, v.TokenReader(), func(v *info.Feature) []fv { return []fv{one(v.Var)} })
 		}
 		{
-			v := info.Identity{Category: g.text(), Type: g.text(), Name: g.opt(), Lang: []string{"", "en", "de-CH"}[g.r.Intn(3)]}
+			v := info.Identity{Category: g.text(), Type: g.text(), Name: g.opt(), Lang: []string{"", "en", "de-CH"}[g.intn(3)]}
 			recCase(c, "info.Identity", v, v.TokenReader(), func(v *info.Identity) []fv {
 				return []fv{one(v.Category), one(v.Name), one(v.Type), one(v.Lang)}
 			})
@@ -220,7 +220,7 @@ func modelCases(c *ctx) {
 			})
 		}
 		{
-			v := roster.Item{JID: g.jid(), Name: g.opt(), Subscription: []string{"", "none", "to", "both", "remove"}[g.r.Intn(5)], Group: g.texts(4)}
+			v := roster.Item{JID: g.jid(), Name: g.opt(), Subscription: []string{"", "none", "to", "both", "remove"}[g.intn(5)], Group: g.texts(4)}
 			recCase(c, "roster.Item", v, v.TokenReader(), func(v *roster.Item) []fv {
 				return []fv{one(v.JID.String()), one(v.Name), one(v.Subscription), manyV(v.Group)}
 			})
@@ -248,13 +248,13 @@ func modelCases(c *ctx) {
 			recCase(c, "stanza.OriginID", v, v.TokenReader(), func(v *stanza.OriginID) []fv { return []fv{one(v.ID)} })
 		}
 		{
-			v := commands.Command{JID: g.jid(), Action: []string{"", "execute", "cancel", "next"}[g.r.Intn(4)], Name: g.opt(), Node: g.text(), SID: g.opt()}
+			v := commands.Command{JID: g.jid(), Action: []string{"", "execute", "cancel", "next"}[g.intn(4)], Name: g.opt(), Node: g.text(), SID: g.opt()}
 			recCase(c, "commands.Command", v, v.TokenReader(), func(v *commands.Command) []fv {
 				return []fv{one(v.Action), one(v.JID.String()), one(v.Name), one(v.Node), one(v.SID)}
 			})
 		}
 		{
-			v := upload.File{Name: g.text(), Size: []int{0, 1, -1, 1 << 40}[g.r.Intn(4)], Type: g.opt()}
+			v := upload.File{Name: g.text(), Size: []int{0, 1, -1, 1 << 40}[g.intn(4)], Type: g.opt()}
 			recCase(c, "upload.File", v, v.TokenReader(), func(v *upload.File) []fv {
 				return []fv{one(v.Type), one(v.Name), one(strconv.Itoa(v.Size))}
 			})
@@ -282,14 +282,14 @@ func modelCases(c *ctx) {
 			})
 		}
 		{
-			v := commands.Note{Type: commands.NoteType(g.r.Intn(3)), Value: g.text()}
+			v := commands.Note{Type: commands.NoteType(g.intn(3)), Value: g.text()}
 			recCase(c, "commands.Note", v, v.TokenReader(), func(v *commands.Note) []fv {
 				return []fv{one(v.Type.String()), one(v.Value)}
 			})
 		}
 		{
 			ages := []time.Duration{0, time.Second, 90 * time.Second, 1500 * time.Millisecond, 400 * time.Millisecond}
-			v := bin.Data{CID: g.opt(), MaxAge: ages[g.r.Intn(len(ages))], NoCache: g.r.Chance(1, 4), Type: g.opt(), Data: g.bytes()}
+			v := bin.Data{CID: g.opt(), MaxAge: ages[g.intn(len(ages))], NoCache: g.chance(1, 4), Type: g.opt(), Data: g.bytes()}
 			recCase(c, "bin.Data", v, v.TokenReader(), func(v *bin.Data) []fv {
 				age := ""
 				switch {
@@ -322,7 +322,7 @@ func modelCases(c *ctx) {
 			recCase(c, "receipts.Requested", v, v.TokenReader(), func(v *receipts.Requested) []fv { return nil })
 		}
 		{
-			v := muc.Invitation{XMLName: xml.Name{Space: muc.NSConf, Local: "x"}, Continue: g.r.Bool(), JID: g.njid(), Password: g.opt(), Reason: g.opt(), Thread: g.opt()}
+			v := muc.Invitation{XMLName: xml.Name{Space: muc.NSConf, Local: "x"}, Continue: g.boolean(), JID: g.njid(), Password: g.opt(), Reason: g.opt(), Thread: g.opt()}
 			recCase(c, "muc.Invitation(direct)", v, v.TokenReader(), func(v *muc.Invitation) []fv {
 				cont, thread := "", ""
 				if v.Continue {
@@ -336,7 +336,7 @@ func modelCases(c *ctx) {
 				XMLName xml.Name `xml:"item"`
 				muc.Item
 			}
-			v := itemEl{Item: muc.Item{JID: g.jid(), Affiliation: muc.Affiliation(g.r.Intn(5)), Nick: g.opt(), Role: muc.Role(g.r.Intn(4)), Reason: g.opt()}}
+			v := itemEl{Item: muc.Item{JID: g.jid(), Affiliation: muc.Affiliation(g.intn(5)), Nick: g.opt(), Role: muc.Role(g.intn(4)), Reason: g.opt()}}
 			recCase(c, "muc.Item", v, nil, func(v *itemEl) []fv {
 				aff, role := "", ""
 				if v.Affiliation != muc.AffiliationNone {
@@ -372,7 +372,7 @@ func modelCases(c *ctx) {
 			q.IQ = stanza.IQ{Type: stanza.ResultIQ, ID: "id"}
 			q.Query.Ver = g.opt()
 			for m := g.count(4); m > 0; m-- {
-				q.Query.Item = append(q.Query.Item, roster.Item{JID: g.jid(), Name: g.opt(), Subscription: []string{"", "both", "remove"}[g.r.Intn(3)], Group: g.texts(3)})
+				q.Query.Item = append(q.Query.Item, roster.Item{JID: g.jid(), Name: g.opt(), Subscription: []string{"", "both", "remove"}[g.intn(3)], Group: g.texts(3)})
 			}
 			p := guard("TokenReader", func() ([]byte, []xml.Token, error) { return encodeTokens(q.TokenReader()) })
 			if toks, err := reparse(p.out); p.panicked == "" && p.err == nil && err == nil && len(toks) >= 4 {
@@ -393,7 +393,7 @@ func modelCases(c *ctx) {
 		{
 			i := disco.Info{InfoQuery: disco.InfoQuery{Node: g.opt()}}
 			for m := g.count(3); m > 0; m-- {
-				i.Identity = append(i.Identity, info.Identity{Category: g.text(), Type: g.text(), Name: g.opt(), Lang: []string{"", "en"}[g.r.Intn(2)]})
+				i.Identity = append(i.Identity, info.Identity{Category: g.text(), Type: g.text(), Name: g.opt(), Lang: []string{"", "en"}[g.intn(2)]})
 			}
 			for m := g.count(4); m > 0; m-- {
 				i.Features = append(i.Features, info.Feature{Var: g.text()})
